@@ -52,8 +52,10 @@ def goequalsCore (info : Bool) (args : List String) : IO String := do
             let fe := fd + 1
             let wa := wt fe ss t a
             let wb := wt fe ss t b
+            if !(wa && wb) then
+              let why := ((whyUnsup fe ss t a).orElse fun _ => whyUnsup fe ss t b).getD "value outside the modelled fragment"
+              return "unsup " ++ why
             if !info then
-              if !(wa && wb) then return "unsup value outside the modelled fragment"
               return toString (goEquals fe ss t a b)
             else
               let e := fun x y => bit (goEquals fe ss t x y)
